@@ -128,7 +128,7 @@ def gen_fmt_items(chk):
     for s in BOUNDARY:
         for p in PATTERNS:
             items.append(num_item(s, *p))
-    n = 6000 if chk.tier == "quick" else 330000
+    n = 6000 if chk.tier == "quick" else 100000
     for _ in range(n):
         p = rng.choice(PATTERNS)
         s = gen_number(rng, p[0] + (2 if p[2] else 0))
@@ -154,7 +154,7 @@ def gen_general_items(chk):
     items = []
     for t in TEXTS:
         items.append({"kind": "text", "text": t, "chars": list(t)})
-    nt = 1200 if chk.tier == "quick" else 40000
+    nt = 1200 if chk.tier == "quick" else 10000
     for _ in range(nt):
         r = rng.random()
         if r < 0.45:       # arbitrary text
@@ -169,7 +169,7 @@ def gen_general_items(chk):
                  rng.choice(["e", "E"]) + rng.choice(["", "-", "+"]) + str(rng.randint(0, 12)))
         items.append({"kind": "text", "text": t, "chars": list(t)})
     nums = list(BOUNDARY) + ["-0", "100000000000000000000", "0.000000000001", "-123456789012345680000"]
-    nn = 1200 if chk.tier == "quick" else 40000
+    nn = 1200 if chk.tier == "quick" else 10000
     for _ in range(nn):
         nums.append(gen_number(rng, rng.randint(0, 8)))
     for s in nums:
@@ -198,7 +198,7 @@ def f64_bits(x):
 def gen_builtin_items(chk):
     rng = chk.rng
     vals = list(BUILTIN_VALUES)
-    n = 30 if chk.tier == "quick" else 600
+    n = 30 if chk.tier == "quick" else 150
     for _ in range(n):
         vals.append(float(gen_number(rng, rng.randint(0, 8))))
         # any finite f64: random bit patterns (exponent field 0x7ff excluded)
@@ -247,20 +247,22 @@ def judge(chk, cases, shrink=True):
     out = validate(chk, events, "c19")
     bad = sorted({ci for ci, _off, _d in out["mismatch"]})
     if shrink and bad:
-        # TLC names the first bad item of a batch only: re-drive the items of rejected batches one per case,
-        # let TLC judge them again, and report every rejected item with a one-item replay script
+        # TLC names the first bad item of a batch only: re-drive the items of (the first few) rejected batches one
+        # per case, let TLC judge them again, and report every rejected item with a one-item replay script
+        explode = bad[:8]
         single = []
-        for ci in bad[:8]:
+        for ci in explode:
             for it in cases[ci].get("items", []):
                 single.append({"a": cases[ci]["a"], "items": [it], "case": len(single)})
-        single = single[:4096]
         if single:
             ev2 = vlib.run_cases("numfmt", single, timeout=60, jobs=6)
             out2 = validate(chk, ev2, "c19s")
             if out2["mismatch"]:
-                good = [i for i in range(len(cases)) if i not in bad]
-                out1 = {"mismatch": [], "kf": out["kf"], "events": out["events"], "states": out["states"]}
-                chk.process_validation(out1, [cases[i] for i in good], [events[i] for i in good], "numfmt", describe)
+                keep = [i for i in range(len(cases)) if i not in explode]      # the other batches, as they are
+                pos = {ci: j for j, ci in enumerate(keep)}
+                out1 = {"mismatch": [(pos[ci], off, d) for ci, off, d in out["mismatch"] if ci in pos],
+                        "kf": out["kf"], "events": out["events"], "states": out["states"]}
+                chk.process_validation(out1, [cases[i] for i in keep], [events[i] for i in keep], "numfmt", describe)
                 out2["kf"] = []
                 chk.process_validation(out2, single, ev2, "numfmt",
                                        lambda c, e, d: f"{c['a']} item {json.dumps(c['items'][0])[:300]}: {d}")
